@@ -46,6 +46,13 @@ TripleLaws(a, b, c) ==
   /\ Pixels(Inter2(Inter2(a, b), c)) = Pixels(Inter2(a, Inter2(b, c)))
   /\ Pixels(Inter2(Inter2(a, b), c)) = Shared(<<a, b, c>>)
 
+(* ----- when are two GeoBoxes on one grid?  b's pixel plane relative to a's: linear part m = <<m11, m12, m21, m22>> in halves
+   (<<2, 0, 0, 2>> is the identity), translation t in 1/16 pixel.  Union / intersection / overlap_roi are defined only
+   for the identity linear part and a whole-pixel translation; everything else must be refused (pixel_translation). ----- *)
+SameGrid(m, t) == m = <<2, 0, 0, 2>> /\ t[1] % 16 = 0 /\ t[2] % 16 = 0
+Halves == {-4, -2, -1, 0, 1, 2, 4}
+LinMaps == {m \in Halves \X Halves \X Halves \X Halves : m[1] * m[4] - m[2] * m[3] # 0}
+
 (* ----- bounding boxes <<l, b, r, t>>: product lattice (max on l, b; min on r, t) ----- *)
 BLe(p, q) == p[1] >= q[1] /\ p[2] >= q[2] /\ p[3] <= q[3] /\ p[4] <= q[4]      \* p is contained in q
 BJoin(p, q) == <<Min2(p[1], q[1]), Min2(p[2], q[2]), Max2(p[3], q[3]), Max2(p[4], q[4])>>
